@@ -170,7 +170,11 @@ def p2(ctx, res):
         if isinstance(node, ast.Assign) and any(isinstance(t, ast.Attribute) and t.attr == "_instance" for t in node.targets):
             n_store += 1
             gs = flat_guards(P2, node)
-            okay = any(norm(t).endswith("._instance is None") and pol for t, pol in gs)
+            # `inst = cls._instance; if inst is None:` tests the same thing through a local read just before
+            aliases = {norm(st.targets[0]) for st in walk_own(new.body) if isinstance(st, ast.Assign) and len(st.targets) == 1
+                       and isinstance(st.targets[0], ast.Name) and isinstance(st.value, ast.Attribute) and st.value.attr == "_instance"
+                       and st.lineno < node.lineno}
+            okay = any((norm(t).endswith("._instance is None") or norm(t) in {f"{a} is None" for a in aliases}) and pol for t, pol in gs)
             res.check(okay, new, node, reason="singleton store happens only while no instance exists")
     res.floor("singleton_store", n_store, 1)
     einit = ctx.func("Element.__init__")
